@@ -94,11 +94,27 @@ func genC19(r *Rng, tier string) []Case {
 		if total < 0 {
 			return // the artifact is refused even without a fault
 		}
-		step := 1
-		if total > 600 && tier == "quick" {
-			step = total / 300
+		ks := []int{}
+		if total > 20000 {
+			// large artifact: fault positions around the buffer sizes of the copy loops, the head and the tail
+			for _, k := range []int{0, 1, 15, 16, 100, 511, 512, 513, 4095, 4096, 4097, 32767, 32768, 32769, 65535, 65536, 65537, total - 32769, total - 4097, total - 2, total - 1} {
+				if k >= 0 && k < total {
+					ks = append(ks, k)
+				}
+			}
+			for i := 0; i < 12; i++ {
+				ks = append(ks, r.Intn(total))
+			}
+		} else {
+			step := 1
+			if total > 600 && tier == "quick" {
+				step = total / 300
+			}
+			for k := 0; k <= total; k += step {
+				ks = append(ks, k)
+			}
 		}
-		for k := 0; k <= total; k += step {
+		for _, k := range ks {
 			for mode := 0; mode < 2; mode++ {
 				for _, dk := range dests {
 					cs = append(cs, Case{"fault", []Sx{Sym(kind), L(art...), Zi(int64(k)), Zi(int64(mode)), Sym(dk)}})
@@ -142,6 +158,21 @@ func genC19(r *Rng, tier string) []Case {
 			emit("sxg_headers", ex, lenOf("sxg_headers", ex), []string{"plain"})
 			msg := []Sx{ex[0], L(B(r.Bytes(20))), B([]byte("https://example.com/v")), Zi(baseDate), Zi(baseDate + 100)}
 			emit("sxg_message", msg, lenOf("sxg_message", msg), []string{"plain"})
+		}
+		// artifacts larger than the 32 KiB / 64 KiB buffer sizes of io.Copy and friends
+		if rep == 0 {
+			big := mkExchange(r, sxgVersions[2], exOpts{contentType: true, payloadLen: 70000})
+			big.SignatureHeaderValue = "label;sig=*AA==*"
+			bx := []Sx{exchangeInSx(big)}
+			emit("sxg", bx, lenOf("sxg", bx), []string{"plain"})
+			bb := randBundle(r, bverList()[1], 1)
+			bb.Exchanges[0].Response.Body = r.Bytes(70000)
+			ba := []Sx{bundleInSx(bb)}
+			emit("bundle", ba, lenOf("bundle", ba), []string{"plain", "readfrom"})
+			ma := []Sx{draftSym(1), Zi(16384), B(r.Bytes(70000))}
+			emit("mi", ma, lenOf("mi", ma), []string{"plain"})
+			ca := []Sx{it("b", B(r.Bytes(70000))), it("t", B(asciiBytes(r, 40000)))}
+			emit("cbor", ca, 70000+40000+10, []string{"plain"})
 		}
 		// a 3-certificate chain
 		chain := []Sx{L(B(sxgKeys[0].der), B([]byte("ocsp")), B(r.Bytes(10))), L(B(sxgKeys[1].der), L(), L()), L(B(sxgKeys[2].der), L(), B([]byte{}))}
